@@ -6,6 +6,7 @@ any/all merge with If terms.  Forking happens only when Python itself needs a bo
 """
 import math
 import numpy as np
+import numpy as _numpy
 
 from . import poly as P
 from .poly import SymReal, SymBool, SymComplex, SymError
@@ -738,13 +739,41 @@ def _tb(x):
     return bool(x)
 
 
+def _int_array(a, initial=None):
+    """the concrete integer ndarray behind `a` when every element is a (non-bool) integer -
+    numpy keeps such reductions integral (row counts, offsets: they end up in slices)"""
+    if initial is not None and not isinstance(initial, (int, np.integer)):
+        return None
+    try:
+        b = np.asarray(a, dtype=object) if not (isinstance(a, np.ndarray) and a.dtype != object) else a
+    except Exception:
+        return None
+    if isinstance(b, np.ndarray) and b.dtype != object:
+        return b if (b.dtype.kind in 'iu' and b.size) else None
+    flat = b.reshape(-1)
+    if flat.size == 0:
+        return None
+    for x in flat:
+        if isinstance(x, (bool, np.bool_)) or not isinstance(x, (int, np.integer)):
+            return None
+    return np.array(b.tolist(), dtype=np.int64).reshape(b.shape)
+
+
 @implements('sum')
 def _sum(a, axis=None, dtype=None, out=None, keepdims=False, initial=None, where=None):
+    ia = _int_array(a, initial)
+    if ia is not None and dtype is None:
+        kw = {} if initial is None else {'initial': initial}
+        return _numpy.sum(ia, axis=axis, keepdims=keepdims, **kw)
     return _reduce(P.add, a, axis, initial, keepdims, empty=0.0)
 
 
 @implements('prod')
 def _prod(a, axis=None, dtype=None, out=None, keepdims=False, initial=None, where=None):
+    ia = _int_array(a, initial)
+    if ia is not None and dtype is None:
+        kw = {} if initial is None else {'initial': initial}
+        return _numpy.prod(ia, axis=axis, keepdims=keepdims, **kw)
     return _reduce(P.mul, a, axis, initial, keepdims, empty=1.0)
 
 
